@@ -9,6 +9,13 @@ from opt_common import near_threshold_pair, rand_rgb
 from proto import bitsf, fbits, run_lines
 
 MATCHERS = {}
+
+
+def regen_leaves():
+    """CmGen/Leaves.lean: the numeric functions and constants of the source as they read now (the `source_*`
+    theorems of CmProps/C05tie.lean identify them with the model)"""
+    from translate import leaves
+    leaves.generate()
 LABEL = {"AAA": "Very Readable", "AA": "Readable", "FAIL": "Not Readable"}
 
 
@@ -18,7 +25,9 @@ def spec_level(ratio, large):
 
 
 def check(run):
-    run.proof = proof_status("C05")
+    run.proof = proof_status("C05", regenerate=regen_leaves)
+    from translate import leaves as _leaves
+    run.extra["source_translation"] = _leaves.summary()
     q = run.quick()
     cm = repo_import()
     from cm_colors.core import contrast as ct, conversions as cv
